@@ -23,7 +23,7 @@ import (
 func init() {
 	Registry["C14"] = &Check{
 		Scenarios: c14Scenarios,
-		Rule: "events: CloseNotify requested {inside the first handler, by a free application thread at every possible instant (in particular while the reader is parked in Read), twice (handler + thread), after termination}; two messages delivered in three fragments (one fragment boundary inside the first header); termination by {peer EOF, transport read error, EOF / read error returned by the same Read that delivers the last message (n > 0 with err != nil), undecodable header followed by trailing bytes, local Close from a free thread at every instant, a handler panic on the second message (recovered by the serve loop)}; an observer thread records the instant the channel closes. The requesting / closing / observing threads and the peer are environment threads, so every ordering of their steps against the library's steps is explored even at preemption bound 0; library preemption bound 2 (quick) / unbounded (thorough). The same request modes {handler, thread, after} x terminations {EOF, undecodable input, local Close} on a multistream (in-memory SCTP) connection, where CloseNotify installs a read-error handler. Also sm.Client with the watchdog enabled followed by a quiet peer close (virtual time, horizon 12 s).",
+		Rule: "events: CloseNotify requested {inside the first handler, by a free application thread at every possible instant (in particular while the reader is parked in Read), twice (handler + thread), after termination}; two messages delivered in three fragments (one fragment boundary inside the first header); termination by {peer EOF, transport read error, a read error that reports itself as temporary (once), EOF / read error returned by the same Read that delivers the last message (n > 0 with err != nil), undecodable header followed by trailing bytes, local Close from a free thread at every instant, a handler panic on the second message (recovered by the serve loop)}; an observer thread records the instant the channel closes. The requesting / closing / observing threads and the peer are environment threads, so every ordering of their steps against the library's steps is explored even at preemption bound 0; library preemption bound 2 (quick) / unbounded (thorough). The same request modes {handler, thread, after} x terminations {EOF, undecodable input, local Close} on a multistream (in-memory SCTP) connection, where CloseNotify installs a read-error handler. Also sm.Client with the watchdog enabled followed by a quiet peer close (virtual time, horizon 12 s).",
 		Assume: []string{"data-race freedom between visible operations (audited separately with -race)", "io.Pipe is modelled by vsched.Pipe (Write blocks until the data is consumed or either end is closed)"},
 		QuickBudget: 100, ThoroughBudget: 1500,
 	}
@@ -55,7 +55,10 @@ func c14Scenarios(tier string) []*Scenario {
 	}
 	var out []*Scenario
 	for _, req := range []string{"handler", "thread", "both", "after", "none"} {
-		for _, term := range []string{"eof", "rerr", "garbage", "localclose", "panic", "eofdata", "rerrdata"} {
+		for _, term := range []string{"eof", "rerr", "garbage", "localclose", "panic", "eofdata", "rerrdata", "rerrtemp"} {
+			if term == "rerrtemp" && (req == "both" || req == "none") {
+				continue
+			}
 			if (term == "eofdata" || term == "rerrdata") && (req == "both" || req == "none" && term == "rerrdata") {
 				continue
 			}
@@ -189,13 +192,20 @@ func c14Scenario(req, term string, bound int) *Scenario {
 				st.termIssued = true
 				vs.Event("peer: connection reset")
 				conn.PeerErr(errors.New("connection reset by peer"))
+			case "rerrtemp":
+				// a read error that calls itself temporary and is reported once (an expired read
+				// deadline): for the connection it is a read error like any other
+				st.termIssued = true
+				vs.Event("transport: temporary read error")
+				conn.RerrOnce = true
+				conn.PeerErr(vnet.TempErr{})
 			case "garbage":
 				bad := make([]byte, 20)
 				bad[0], bad[3] = 1, 60
 				bad[5], bad[6], bad[7] = 0xff, 0xff, 0xfe
 				st.termIssued = true
 				vs.Event("peer: undecodable header + 40 trailing bytes")
-				conn.Deliver(append(bad, make([]byte, 40)...))
+				conn.Deliver(append(bad, ghost40(9)...))
 			}
 		})
 		if term == "localclose" {
